@@ -1,10 +1,10 @@
-\* U1 of C11, quick: T3 = [p = 3, emax = 3, w = 6]; every 61st triple (4298 of 262144) for sum3, muladd and the 32 fma variants, every 4093rd quadruple (4100 of 16777216) for sum4, dot2
+\* U1 of C11, quick: T3 = [p = 3, emax = 3, w = 6]; every 61st triple (4298 of 262144) for sum3, muladd, every 251st (1045) for the 32 fma variants, every 4093rd quadruple (4100 of 16777216) for sum4, dot2
 SPECIFICATION Spec
 CONSTANTS
   Fmt = "T3"
   Ops = "multi"
   Stride3 = 61
-  StrideF = 61
+  StrideF = 251
   Stride4 = 4093
   Off = 0
   XAdd <- TabAdd
